@@ -6,14 +6,20 @@ from concurrent.futures import ThreadPoolExecutor
 V = os.path.dirname(os.path.dirname(os.path.abspath(__file__)))
 OUT = "/tmp/seed_eval"
 os.makedirs(OUT, exist_ok=True)
-only = set(sys.argv[1:])
+args = sys.argv[1:]
+SRC, IDMAP = "/tmp/wt", "AB"
+if "--src" in args:
+    i = args.index("--src"); SRC = args[i + 1]; del args[i:i + 2]
+if "--idmap" in args:
+    i = args.index("--idmap"); IDMAP = args[i + 1]; del args[i:i + 2]
+only = set(args)
 seeds = []
-for d in sorted(glob.glob("/tmp/wt/C*")):
+for d in sorted(glob.glob(SRC + "/C*")):
     prop = os.path.basename(d)
-    for v in "AB":
+    for v, vid in zip("AB", IDMAP):
         patch, demo = os.path.join(d, "variant%s.diff" % v), os.path.join(d, "demo%s.py" % v)
         if os.path.exists(patch) and os.path.exists(demo):
-            sid = "%s-%s" % (prop, v)
+            sid = "%s-%s" % (prop, vid)
             if only and sid not in only and prop not in only:
                 continue
             seeds.append((sid, prop, patch, demo))
